@@ -435,8 +435,10 @@ def cooccurence(f, direction, output=None, symmetric=True, distance=1):
         mf = int(f.max())
         output = np.zeros((mf+1, mf+1), np.int32)
     else:
-        assert np.min(output.shape) > f.max(), 'mahotas.texture.cooccurence: output is not large enough'
-        assert output.dtype == np.int32, 'mahotas.texture.cooccurence: output is not of type np.int32'
+        if np.min(output.shape) <= f.max():
+            raise ValueError('mahotas.texture.cooccurence: output is not large enough')
+        if output.dtype != np.int32:
+            raise ValueError('mahotas.texture.cooccurence: output is not of type np.int32')
         output.fill(0)
 
     if len(f.shape) == 2:
